@@ -99,6 +99,59 @@ func SynthKerx0Tuple(left, right int, value uint16, size int) []byte {
 	return w.b
 }
 
+// SynthKern3 builds a 'kern' table (Apple or OpenType header) with one format 3 subtable of the
+// given dimensions (glyphs, kerning values, left classes, right classes). All array elements are
+// in range except element `at` of array `which` (0 left classes, 1 right classes, 2 kernIndex),
+// which is set to its bound (how 0), its bound minus one (how 1: still valid) or 255 (how 2).
+func SynthKern3(dims [4]int, which, at, how int, apple bool) []byte {
+	g, k, lc, rc := dims[0], dims[1], dims[2], dims[3]
+	var body wbuf
+	body.u16(g)
+	body.b = append(body.b, byte(k), byte(lc), byte(rc), 0)
+	for i := 0; i < k; i++ {
+		body.u16(10 * (i + 1))
+	}
+	arrays := [3][]byte{make([]byte, g), make([]byte, g), make([]byte, lc*rc)}
+	bounds := [3]int{lc, rc, k}
+	for a := range arrays {
+		for i := range arrays[a] {
+			arrays[a][i] = byte((i*7 + a) % bounds[a])
+		}
+	}
+	el := &arrays[which%3][at%len(arrays[which%3])]
+	switch how {
+	case 0:
+		*el = byte(bounds[which%3])
+	case 1:
+		*el = byte(bounds[which%3] - 1)
+	default:
+		*el = 255
+	}
+	if which%3 == 2 {
+		// make every class pair reachable: glyph i has left class i%lc, right class (i/lc)%rc
+		for i := 0; i < g; i++ {
+			arrays[0][i], arrays[1][i] = byte(i%lc), byte((i/lc)%rc)
+		}
+	}
+	for _, a := range arrays {
+		body.raw(a)
+	}
+	var w wbuf
+	if apple {
+		w.u32(0x00010000)
+		w.u32(1)
+		w.u32(uint32(8 + body.len()))
+		w.b = append(w.b, 0, 3)
+		w.u16(0)
+	} else {
+		w.u16(0, 1)
+		w.u16(0, 6+body.len())
+		w.b = append(w.b, 3, 1) // format 3, horizontal
+	}
+	w.raw(body.b)
+	return w.b
+}
+
 type wbuf struct{ b []byte }
 
 func (w *wbuf) u16(v ...int) {
@@ -785,4 +838,104 @@ func BitmapIndexSubtables(img []byte) (offs []int) {
 		}
 	}
 	return offs
+}
+
+// cffDictEscInts returns the integer operands of the first occurrence of the two-byte operator
+// (12, op) of a DICT.
+func cffDictEscInts(d []byte, op byte) (vals []int, ok bool) {
+	var st []int
+	for i := 0; i < len(d); {
+		c := d[i]
+		switch {
+		case c >= 32 && c <= 246:
+			st, i = append(st, int(c)-139), i+1
+		case c >= 247 && c <= 250 && i+1 < len(d):
+			st, i = append(st, (int(c)-247)*256+int(d[i+1])+108), i+2
+		case c >= 251 && c <= 254 && i+1 < len(d):
+			st, i = append(st, -(int(c)-251)*256-int(d[i+1])-108), i+2
+		case c == 28 && i+2 < len(d):
+			st, i = append(st, int(int16(binary.BigEndian.Uint16(d[i+1:])))), i+3
+		case c == 29 && i+4 < len(d):
+			st, i = append(st, int(int32(binary.BigEndian.Uint32(d[i+1:])))), i+5
+		case c == 30:
+			i++
+			for i < len(d) {
+				x := d[i]
+				i++
+				if x&0x0F == 0x0F || x>>4 == 0x0F {
+					break
+				}
+			}
+			st = append(st, 0)
+		case c == 12 && i+1 < len(d):
+			if d[i+1] == op {
+				return st, true
+			}
+			st, i = st[:0], i+2
+		case c <= 21:
+			st, i = st[:0], i+1
+		default:
+			return nil, false
+		}
+	}
+	return nil, false
+}
+
+// FDSelect3 describes the format 3 FDSelect of a CID-keyed CFF font found in an sfnt file:
+// absolute file offsets of the range records (first glyph u16, font dict u8) and of the sentinel.
+type FDSelect3 struct {
+	Ranges   []int // offset of each range record
+	Sentinel int
+	NumFD    int // number of font dicts (FDArray count)
+	Glyphs   int // number of charstrings
+}
+
+func CFFFDSelect3(img []byte) (fs FDSelect3, ok bool) {
+	kind, tabs := ParseDirectory(img)
+	if kind != KindSfnt {
+		return fs, false
+	}
+	for _, t := range tabs {
+		if t.Tag != "CFF " || t.Offset+4 > len(img) || t.Offset+t.Length > len(img) {
+			continue
+		}
+		b := img[:t.Offset+t.Length]
+		name, ok := parseCFFIndex(b, t.Offset+int(b[t.Offset+2]))
+		if !ok {
+			return fs, false
+		}
+		top, ok := parseCFFIndex(b, name.end)
+		if !ok || top.count < 1 {
+			return fs, false
+		}
+		d := b[top.start[0]:top.start[1]]
+		sel, ok1 := cffDictEscInts(d, 37)
+		arr, ok2 := cffDictEscInts(d, 36)
+		cs, ok3 := cffDictInts(d, 17)
+		if !ok1 || !ok2 || !ok3 || len(sel) == 0 || len(arr) == 0 || len(cs) == 0 {
+			return fs, false
+		}
+		fda, ok := parseCFFIndex(b, t.Offset+arr[len(arr)-1])
+		if !ok {
+			return fs, false
+		}
+		chs, ok := parseCFFIndex(b, t.Offset+cs[len(cs)-1])
+		if !ok {
+			return fs, false
+		}
+		p := t.Offset + sel[len(sel)-1]
+		if p < 0 || p+3 > len(b) || b[p] != 3 {
+			return fs, false
+		}
+		n := int(binary.BigEndian.Uint16(b[p+1:]))
+		if p+3+3*n+2 > len(b) {
+			return fs, false
+		}
+		for i := 0; i < n; i++ {
+			fs.Ranges = append(fs.Ranges, p+3+3*i)
+		}
+		fs.Sentinel, fs.NumFD, fs.Glyphs = p+3+3*n, fda.count, chs.count
+		return fs, n > 0
+	}
+	return fs, false
 }
